@@ -6,22 +6,22 @@ TECH = "symbolic execution of go/ssa (regenerated from /repo per run) + SMT (z3 
 NOTE = ("trusted: go/ssa (x/tools v0.29.0) as source semantics; executor instruction semantics (validated per run by replaying solver witness tapes and "
         "counterexamples against the native build); engine intercept models listed in evidence; z3 5.1.0. Bounds per obligation are in evidence coverage.bounds; ")
 CLAIMS = {
- "C01": ("per-layer delivery exactness: fragswarm and mbapp round trips (real Tell -> recorded fragments -> real receive path, every order), vswarm tell/receive with buffer overwrite, p2pmux tell pass-through, Queue contents (C13 harness): payload, source, destination preserved, sender buffers untouched", "payloads <= 4-6 bytes for content; nesting argued per layer over an arbitrary inner stub; UDP/QUIC/SSH and p2pkeswarm payload path outside (C02/C04 cover the channel and glue)"),
- "C02": ("Session.Deliver/Send relative to the AEAD contract of a recording cipher stub: app data only after exactly one successful authenticated decrypt of exactly the packet, at most once under the real replay filter, send framing/counter discipline, data counters disjoint from handshake counters (inductive step)", "replay window: counters within 256 of base plus jumps >= 128 blocks; strength of ChaCha20-Poly1305/Noise and concurrent Send counter allocation outside"),
+ "C01": ("per-layer delivery exactness: fragswarm and mbapp round trips and two-source interleavings (real Tell -> recorded fragments -> real receive path, every order, reused receive buffer), vswarm tell/receive with buffer overwrite, p2pmux tell pass-through, multiswarm routing and receive wrapping, mapswarm pass-through, Queue contents (C13 harness): payload, source, destination preserved, sender buffers untouched", "payloads <= 4-6 bytes for content; nesting argued per layer over an arbitrary inner stub; UDP/QUIC/SSH and p2pkeswarm payload path outside (C02/C04 cover the channel and glue)"),
+ "C02": ("Session.Deliver/Send relative to the AEAD contract of a recording cipher stub: app data only after exactly one successful authenticated decrypt of exactly the packet, at most once under the real replay filter, send framing/counter discipline, data counters disjoint from handshake counters and never decreasing (inductive steps), Channel.Send puts only header+ciphertext on the transport, channel-level delivery only from established sessions", "replay window: counters within 256 of base plus jumps >= 128 blocks; strength of ChaCha20-Poly1305/Noise and concurrent Send counter allocation outside"),
  "C03": ("inductive step of Session.Deliver over every (role, handshake index) with arbitrary packet: only legal transitions, each gated by a successful Verify under the key then reported as remote key over the purpose-tagged transcript of this handshake; remote key immutable; no state change on error", "Noise, protobuf and asn1 leaves are engine models (havoc constrained by contract); Ed25519 unforgeability and transcript-hash uniqueness assumed"),
- "C04": ("wlswarm: nothing sent to / delivered from a rejected address for every predicate; p2pkeswarm glue relative to the Channel contract: source identity = fingerprint of the channel's proved key, inbound accept predicate = whitelist, outbound payload only to a channel whose key fingerprints to the addressed identity", "QUIC/TLS and SSH handshakes and their identity checks cannot be encoded (library glue): outside"),
+ "C04": ("wlswarm: nothing sent to / delivered from a rejected address for every predicate; p2pkeswarm glue relative to the Channel contract: source identity = fingerprint of the channel's proved key, inbound accept predicate = whitelist, outbound payload only to a channel whose key fingerprints to the addressed identity, whatever is delivered has a whitelisted source on every path (also on channels the swarm dialled itself)", "QUIC/TLS and SSH handshakes and their identity checks cannot be encoded (library glue): outside"),
  "C05": ("inductive step of Channel.Deliver from every slot state satisfying the documented invariant, arbitrary packet and acceptance predicate: invariant preserved, channel key immutable and accepted, app data only from established sessions, handshakes with other keys do not disturb established sessions", "Session leaves modelled as in C03; counters 0..79"),
  "C06": ("Session handshake lemmas: monotone, no panic, Handshake() idempotent, genuine next message advances exactly one step when all checks pass, duplicates/old/reflected messages change nothing and are answered with the cached message", "schedule quantifier discharged by induction over these one-step facts (paper argument); two-party bounded schedules not mechanised"),
  "C07": ("safety lemmas the liveness statement presupposes, with a symbolic clock: keep-alive refreshed by authenticated data, simultaneous-initiation tie-break picks exactly one side, expiry preserves the slot invariant and re-arms the ready signal; retransmission machinery with modelled timers (a timer re-armed from its own callback stays pending, a Send without any session schedules a handshake at once, every pending handshake message is retransmitted and the timer re-armed with the backoff)", "PARTIAL: the timed convergence within a bounded number of retransmission intervals needs real timers/goroutines/two parties and is outside what the encoding reaches"),
- "C08": ("no panic path for every byte string / packet sequence within the stated lengths at the packet-facing entry points: p2pmux demuxers, fragswarm parseMessage+handleTell, mbapp ParseMessage/getters+handleMessage, p2pke parsers/Session/Channel, kademlia handlers via C18/C20 harnesses", "outside: x509/asn1 key parser, regexp/fmt address parsers, QUIC/SSH wire parsers"),
- "C09": ("size arithmetic at full scale with opaque payloads (symbolic length): fragswarm and mbapp Tell accept everything <= MTU(), refuse above with the MTU error, fragments fit the inner MTU and the announced count is the true count; p2pmux MTU+header fits beneath for every channel id; vswarm boundary", "inner MTU >= header size + 1; udp/quic/ssh writers outside"),
+ "C08": ("no panic path for every byte string / packet sequence within the stated lengths at the packet-facing entry points: p2pmux demuxers, fragswarm parseMessage+handleTell, mbapp ParseMessage/getters+handleMessage, p2pke parsers/Session/Channel, quicswarm readFrame under every short-read pattern, kademlia HandlePut/HandleGet/HandleFindNode", "outside: x509/asn1 key parser, regexp/fmt address parsers, QUIC/SSH wire parsers"),
+ "C09": ("size arithmetic at full scale with opaque payloads (symbolic length): fragswarm and mbapp Tell accept everything <= MTU(), refuse above with the MTU error, fragments fit the inner MTU and the announced count is the true count; p2pmux MTU+header fits beneath for every channel id; p2pkeswarm MTU+overhead fits beneath; mbapp Ask sizes; vswarm boundary", "inner MTU >= header size + 1; udp/quic/ssh writers outside"),
  "C10": ("fragments produced by the real Tell/send of several symbolic messages from two sources fed to the real reassembly in every schedule of 5-6 picks with repetition and omission: every delivery is a complete message of the attributed source", "<= 3 fragments per message, id reuse after sender restart outside"),
  "C11": ("AskHub: each asker gets exactly its own handler's result and bytes under every interleaving within the preemption bound; gone hub/cancelled context is an error; vswarm Ask and mbapp Ask (two real swarms over a loop-back inner swarm, multi-part requests/responses): exact answer, or an error for unknown/closed destination, negative handler result and a response that does not fit", "outside: quicswarm/sshswarm streams, several outstanding mbapp asks with crossed replies"),
  "C12": ("TellHub/AskHub/Queue and the composite Close of mbapp and p2pmux muxed swarms: every blocked and later Receive/ServeAsk returns a non-nil error after Close, no callback after Close returned, repeated Close harmless, for every interleaving at synchronisation operations", "outside: goroutine release of socket-backed receive loops (udp/quic/ssh)"),
  "C13": ("TellHub/AskHub: exactly-once hand-off, Deliver success only after the callback, cancelled calls return; Queue FIFO, buffer ownership and slot conservation", "interleavings at channel operations, context-bounded where stated; assumes data-race freedom (C14 not claimed)"),
- "C15": ("mux/demux round trip and injectivity for all five framings over symbolic channels and payloads; dispatch isolation through the real handleRecv with two open channels (sync.Map modelled)", "channel names <= 4 bytes plus the 2-byte varint boundary"),
+ "C15": ("mux/demux round trip and injectivity for all five framings over symbolic channels and payloads; two frames alive at once stay independent and the caller's vector is untouched; dispatch isolation through the real handleRecv with two open channels for the string and varint muxes (sync.Map modelled)", "channel names <= 4 bytes plus the 2-byte varint boundary"),
  "C16": ("PARTIAL: the compositional id@inner wrappers (p2pkeswarm.Addr, quicswarm.Addr): round trip for every id and inner text (including '@'), parse of arbitrary text fails or is a fixed point", "udpswarm/sshswarm/multiswarm/memswarm grammars use fmt.Sscan/regexp/netip/strconv and cannot be encoded faithfully: outside"),
- "C17": ("PeerID text: round trip, order preservation, wrong length rejected, strict alphabet acceptance with reference decode; OID construction round trip; EqualPublicKeys == equality of algorithm and bytes", "outside: x509 MarshalPublicKey/ParsePublicKey (encoding/asn1 reflection) and fingerprint canonicity across layers"),
+ "C17": ("PeerID text: round trip, order preservation, wrong length rejected, strict alphabet acceptance with reference decode; OID construction round trip; EqualPublicKeys == equality of algorithm and bytes; fingerprint identical across p2pkeswarm and quicswarm (hashes as functional symbols; KNOWN FINDING F22: they differ)", "outside: x509 MarshalPublicKey/ParsePublicKey (encoding/asn1 reflection) and fingerprint canonicity across layers"),
  "C18": ("bounded operation sequences from the empty cache against a reference map: count==entries<=max, entries vanish only by delete/expiry/reported eviction, farthest unprotected bucket evicted, Expire exact", "small key universe (1-byte keys), 3-4 operations; map iteration order fixed to insertion order"),
  "C19": ("DistanceCmp agrees with byte-wise XOR comparison and is a total preorder (all length triples <=3); ForEach nearest-first and complete, Closest minimal, ForEachCloser/ForEachMatching exact over symbolic small caches", "1-byte keys, <=2-3 entries"),
  "C20": ("dhtIterate-based operations over an adversarial responder pool: each node contacted at most once, accepted count/error/Closest/value truthful, HandleFindNode capped", "pool of 3-4 symbolic ids; fabricated ever-closer ids outside the claim"),
